@@ -69,7 +69,7 @@ RULE = (
     "charge set on each index (full 4-element set up to 3 indices; for 4 indices a 3-element set plus random "
     "full-set samples; wide-range and 64-bit samples for U1/U1U1), generic, static and fermionic classes. "
     "A sector case is non-trivial when the charge product contains both an accepted and a rejected tuple."
-)
+        '; is_valid_sector also probed on arrays that store blocks under every key (valid or not)')
 ANCHORS = {
     "symmetries.py": ["Z2", "Z4", "U1", "Z2Z2", "U1U1", "get_symmetry", "sign_scalar", "sign_tuple"],
     "abelian_core.py": ["gen_valid_sectors", "is_valid_sector"],
